@@ -153,7 +153,7 @@ def pick_t(rng, pts, ks):
         vals = [v for v in vals if 0 < v <= 1]
         if vals:
             return float(rng.choice(vals))
-    return rng.choice([0.0, 0.25, 1 / 3, 0.33, 0.5, 1.0, 0.3])
+    return rng.choice([0.0, 0.25, 1 / 3, 0.33, 0.5, 1.0, 0.3, 1.5, -0.5])       # the statement puts no restriction on t
 
 
 def run(ctx):
